@@ -9,7 +9,7 @@ from harness.descr import data_real, data_coq, ty_coq, ty_src, con_opt_coq, con_
 from harness.schema_coq import doc_coq, Unsupported
 
 NEEDED = ["Deser/Model.v", "Deser/Spec.v", "Deser/Proofs.v", "Schema/Json.v", "Schema/Build.v", "Schema/Run.v",
-          "Schema/Proofs.v"]
+          "Schema/Proofs.v", "Schema/ConProofs.v", "Schema/ShapeProofs.v", "Schema/AgreeProofs.v"]
 
 HEADER_EXTRA = """From AV Require Import Schema.Json Schema.Build Schema.Run.
 """
@@ -280,6 +280,13 @@ def run(tier):
     for i in bad3[:5]:
         R.violation("the model's schema and the specification of deserialization disagree on this datum", ameta[i])
     R.hist["agreement_cases"] = len(acases)
+    # how many of the cases lie within the hypotheses of the proved theorem (object-free fragment, no root schema)
+    hyp = ("(fun c : " + T3 + " => let '(u, o, ar, root, t, d) := c in match root with Some _ => false | None => "
+           "obj_free t && wf_con t && con_mergeable u o (refs_pred (refs_of u (fun _ => false) ar t)) fuel_s false t && keys_ok u t && in_domain d end)")
+    outside, errs = core.run_coq_shards("C06_hyps", header + "From AV Require Import Schema.AgreeProofs.\n", acases, hyp, item_type=T3, shard=400)
+    for k, e in errs:
+        R.broken.append(f"coq evaluation failed (C06_hyps shard {k}): {e[-300:]}")
+    R.hist["cases_within_the_proved_theorem"] = len(acases) - len(outside)
     return R.finish(
         rule="generated universes (dataclass / NamedTuple / TypedDict, aliases, defaults, constraints, dependent_required, "
              "ordering) x types of depth <= 3 (collections, tuples, mappings with constrained / literal / enum keys, unions, "
